@@ -991,4 +991,121 @@ theorem readInstalled_congr (c : Cfg) (h : c.unescapeNames = true) (cfg : JCfg) 
     | cons e rest ih => obtain ⟨n, p⟩ := e; simp [readAll, hp, ih]
   simp [readInstalled, ha]
 
+/-! ### C02: the policy left behind by an update is safe, for the pinned writer as well -/
+
+theorem newOk_term_cases {c : Cfg} {f : Fam} {d : Diff} {t : JTerm} (h : NewOk c f d (some t)) :
+    t.accept = false ∨ (t.family = some f.name ∧ t.filters ≠ [] ∧ ∀ x ∈ t.filters, x ∈ d.new) := by
+  unfold NewOk at h
+  by_cases hn : d.new = []
+  · simp only [hn, if_true] at h
+    split at h
+    · cases h
+    · simp only [Option.some.injEq] at h; subst h; exact Or.inl rfl
+  · simp only [hn, if_false] at h
+    obtain ⟨fs, h1, h2⟩ := h
+    simp only [Option.some.injEq] at h1
+    subst h1
+    refine Or.inr ⟨rfl, ?_, fun x hx => (h2 x).1 hx⟩
+    intro he
+    simp only at he
+    subst he
+    cases hd : d.new with
+    | nil => exact hn hd
+    | cons y ys => have := (h2 y).2 (by simp [hd]); simp at this
+
+theorem safeFor_of_newOk {c : Cfg} {p : JPolicy} {d4 d6 : Diff} (h1 : p.thenReject = true)
+    (h2 : (keys p.terms).Nodup) (h4 : NewOk c .v4 d4 (alGet inet p.terms))
+    (h6 : NewOk c .v6 d6 (alGet inet6 p.terms)) (hk : ∀ k ∈ keys p.terms, k = inet ∨ k = inet6) :
+    safeFor p d4.new d6.new = true := by
+  have hterm : ∀ kt ∈ p.terms, kt.2.accept = false ∨
+      (kt.1 = inet ∧ kt.2.family = some inet ∧ kt.2.filters ≠ [] ∧ ∀ x ∈ kt.2.filters, x ∈ d4.new) ∨
+      (kt.1 = inet6 ∧ kt.2.family = some inet6 ∧ kt.2.filters ≠ [] ∧ ∀ x ∈ kt.2.filters, x ∈ d6.new) := by
+    intro kt hkt
+    obtain ⟨k, t⟩ := kt
+    have hg := alGet_of_mem_nodup h2 hkt
+    rcases hk k (List.mem_map.2 ⟨(k, t), hkt, rfl⟩) with rfl | rfl
+    · rw [hg] at h4
+      rcases newOk_term_cases h4 with h | h
+      · exact Or.inl h
+      · exact Or.inr (Or.inl ⟨rfl, h⟩)
+    · rw [hg] at h6
+      rcases newOk_term_cases h6 with h | h
+      · exact Or.inl h
+      · exact Or.inr (Or.inr ⟨rfl, h⟩)
+  unfold safeFor
+  simp only [Bool.and_eq_true, h1, and_true]
+  refine ⟨⟨?_, ?_⟩, ?_⟩
+  · unfold restricted
+    simp only [List.all_eq_true]
+    intro kt hkt
+    rcases hterm kt hkt with h | ⟨_, h, hne, _⟩ | ⟨_, h, hne, _⟩
+    · simp [h]
+    · simp [h, hne]
+    · simp [h, hne]
+  · simp only [List.all_eq_true, decide_eq_true_eq]
+    intro x hx
+    obtain ⟨kt, hkt, hacc, hfam, hxf⟩ := (mem_acceptSet _ _ _).1 hx
+    rcases hterm kt hkt with h | ⟨_, _, _, h⟩ | ⟨_, h, _, _⟩
+    · rw [h] at hacc; cases hacc
+    · exact h x hxf
+    · rw [h] at hfam; simp only [Fam.name, Option.some.injEq] at hfam
+      exact absurd hfam.symm inet_ne_inet6
+  · simp only [List.all_eq_true, decide_eq_true_eq]
+    intro x hx
+    obtain ⟨kt, hkt, hacc, hfam, hxf⟩ := (mem_acceptSet _ _ _).1 hx
+    rcases hterm kt hkt with h | ⟨_, h, _, _⟩ | ⟨_, _, _, h⟩
+    · rw [h] at hacc; cases hacc
+    · rw [h] at hfam; simp only [Fam.name, Option.some.injEq] at hfam
+      exact absurd hfam inet_ne_inet6
+    · exact h x hxf
+
+/-! ### candidates and evaluation (C03); the run as an instance of `applyAll` -/
+
+/-- a marked statement is a candidate of the repaired reader (under its true name) -/
+theorem marked_is_candidate {running : List RStmt} {cands : List (Str × Option Str)}
+    (hc : candidates .fixed running = .ok cands) {s : RStmt} (hs : s ∈ running) (hm : s.marked = true) :
+    ∃ x, alGet s.name cands = some x ∧ (s.ann = .malformed → x = none) ∧
+      (∀ e, s.ann = .parsed e → x = some e) := by
+  unfold candidates at hc
+  simp only at hc
+  split at hc
+  · rename_i hnd
+    simp only [Except.ok.injEq] at hc
+    subst hc
+    unfold RStmt.marked at hm
+    simp only [Bool.and_eq_true, bne_iff_ne, ne_eq] at hm
+    obtain ⟨⟨ha, hr⟩, hann⟩ := hm
+    cases hx : s.ann with
+    | none => exact absurd hx hann
+    | malformed =>
+      refine ⟨none, alGet_of_mem_nodup hnd (List.mem_filterMap.2 ⟨s, hs, ?_⟩), (fun _ => rfl), (fun e he => by cases he)⟩
+      simp [candOf, ha, hr, hx, nameOf, Cfg.fixed]
+    | parsed e =>
+      refine ⟨some e, alGet_of_mem_nodup hnd (List.mem_filterMap.2 ⟨s, hs, ?_⟩), (fun h => by cases h), ?_⟩
+      · simp [candOf, ha, hr, hx, nameOf, Cfg.fixed]
+      · intro e' he
+        simp only [Ann.parsed.injEq] at he
+        rw [he]
+  · cases hc
+
+theorem alGet_evaluateAll (oracle : Str → Option (List Range × List Range)) (cands : List (Str × Option Str))
+    (n : Str) :
+    alGet n (evaluateAll oracle cands) = (alGet n cands).map fun e =>
+      match e with
+      | some e => ⟨e, oracle e⟩
+      | none => ⟨[], none⟩ := by
+  induction cands with
+  | nil => simp [evaluateAll, alGet]
+  | cons x xs ih =>
+    obtain ⟨k, e⟩ := x
+    unfold evaluateAll at ih ⊢
+    by_cases hk : k = n
+    · subst hk; simp [alGet]; cases e <;> rfl
+    · simp only [List.map_cons, alGet, hk, if_false]; exact ih
+
+/-- the agent's own run is the instance "emitted order" -/
+theorem run_eq {cfg : JCfg} (hs : AgentState cfg) (ev : List (Str × Evaluated)) :
+    run .fixed cfg ev = applyAll cfg ((compare ev (viewCfg cfg)).map (render .fixed)) := by
+  simp [run, plan, readInstalled_agentState hs]
+
 end Policy
